@@ -68,7 +68,7 @@ theorem readExact_err (p : PbfIn) (size : Nat) (hg : p.src.Good) (h : p.stream.l
 /-- Specification of one frame, on a plain byte stream. -/
 def specFrame (maxHeader maxBlob : Nat) (blobSize : Bool → Bytes → Option Nat) (first : Bool) (r : Bytes) :
     Except PbfErr (Option (Bytes × Bytes) × Bytes) :=
-  if r.length < 4 then .ok (none, r)
+  if r.length < 4 then (if r.isEmpty then .ok (none, r) else .error .truncated)
   else
     let size := be32 (r.take 4)
     let r1 := r.drop 4
@@ -93,7 +93,8 @@ def specFrames (maxHeader maxBlob : Nat) (blobSize : Bool → Bytes → Option N
     | .ok (some f, r') => specFrames maxHeader maxBlob blobSize fuel r' (f :: acc)
 
 theorem readHeaderSize_spec (maxHeader : Nat) (p : PbfIn) (hg : p.src.Good) :
-    (p.stream.length < 4 → p.readHeaderSize maxHeader = .ok (0, p)) ∧
+    (p.stream.length < 4 →
+      p.readHeaderSize maxHeader = if p.stream.isEmpty then .ok (0, p) else .error .truncated) ∧
     (4 ≤ p.stream.length →
       (be32 (p.stream.take 4) > maxHeader → p.readHeaderSize maxHeader = .error .headerTooLarge) ∧
       (¬ be32 (p.stream.take 4) > maxHeader →
@@ -101,7 +102,8 @@ theorem readHeaderSize_spec (maxHeader : Nat) (p : PbfIn) (hg : p.src.Good) :
           p'.stream = p.stream.drop 4)) := by
   constructor
   · intro h
-    simp [PbfIn.readHeaderSize, readExact_err p 4 hg h]
+    have hp : p.src.pending = p.src.chunks.flatten := by simp [Src.pending, hg.1]
+    simp [PbfIn.readHeaderSize, readExact_err p 4 hg h, hp, PbfIn.stream]
   · intro h
     obtain ⟨p', he, hg', hs⟩ := readExact_ok p 4 hg h
     constructor
@@ -115,7 +117,9 @@ theorem readFrame_spec (maxHeader maxBlob : Nat) (blobSize : Bool → Bytes → 
     | .ok (r, p') => specFrame maxHeader maxBlob blobSize first p.stream = .ok (r, p'.stream) ∧ p'.src.Good := by
   have hh := readHeaderSize_spec maxHeader p hg
   by_cases h4 : p.stream.length < 4
-  · simp [PbfIn.readFrame, hh.1 h4, specFrame, h4, hg]
+  · by_cases he : p.stream.isEmpty = true
+    · simp [PbfIn.readFrame, hh.1 h4, specFrame, h4, hg, he]
+    · simp [PbfIn.readFrame, hh.1 h4, specFrame, h4, he]
   · have h4' : 4 ≤ p.stream.length := by omega
     by_cases hgt : be32 (p.stream.take 4) > maxHeader
     · simp [PbfIn.readFrame, (hh.2 h4').1 hgt, specFrame, h4, hgt]
